@@ -37,7 +37,10 @@ CONSTANTS FileSize,     \* size of the remote file, in units
           ReqCap, ReqThresh,   \* flow control client -> server: credit for ReqCap requests, handed back in lumps of
                                \* ReqThresh consumed requests (an SSH window adjust); 0 = unbounded pipe
           RespCap, RespThresh, \* the same server -> client; a credit is handed back when the client has READ a response
-          SendUnderLock \* mutation: _async_request sends the packet while still holding SFTPClient._lock
+          SendUnderLock,\* mutation: _async_request sends the packet while still holding SFTPClient._lock
+          IdBeforeLock, \* mutation: _async_request writes request_number into the packet BEFORE taking SFTPClient._lock
+          StatusNoWait, \* mutation: a STATUS for a prefetch READ does not wait for the extent to be registered (unknown id = "a write")
+          FinishCountsOnce \* mutation: _finish_responses counts the file's outstanding requests once and reads that many packets
 
 None == 0   \* request numbers start at 1
 VChunks == VOffs \X VLens
@@ -69,7 +72,7 @@ RemoveAt(s, i) == [j \in 1..(Len(s) - 1) |-> IF j < i THEN s[j] ELSE s[j + 1]]
 
 AppIdle == [pc |-> "idle", rpos |-> 0, want |-> 0, got |-> 0, vq |-> <<>>, vec |-> FALSE, num |-> None]
 NoObs == [pos |-> 0, want |-> 0, got |-> 0, vec |-> FALSE, set |-> FALSE]
-NoPkt == [num |-> None, kind |-> "none", len |-> 0, rk |-> "none"]
+NoPkt == [num |-> None, kind |-> "none", len |-> 0, rk |-> "none", off |-> 0]
 
 Init ==
   /\ nextreq = 1 /\ expecting = Empty /\ srvq = <<>> /\ resp = <<>>
@@ -104,14 +107,14 @@ Serve ==
   /\ LET q == Head(srvq) IN
        \E r \in
           (CASE q.kind = "read" ->
-                  IF q.off >= FileSize THEN {[num |-> q.num, kind |-> "eof", len |-> 0, rk |-> "read"]}
+                  IF q.off >= FileSize THEN {[num |-> q.num, kind |-> "eof", len |-> 0, rk |-> "read", off |-> q.off]}
                   ELSE LET full == Min(q.len, FileSize - q.off) IN
-                       {[num |-> q.num, kind |-> "data", len |-> k, rk |-> "read"] :
+                       {[num |-> q.num, kind |-> "data", len |-> k, rk |-> "read", off |-> q.off] :
                             k \in (IF ShortReads THEN 1..full ELSE {full})}
              [] q.kind = "write" ->
-                  {[num |-> q.num, kind |-> "ok", len |-> 0, rk |-> "write"]} \cup
-                  (IF WriteFaults THEN {[num |-> q.num, kind |-> "err", len |-> 0, rk |-> "write"]} ELSE {})
-             [] OTHER -> {[num |-> q.num, kind |-> "ok", len |-> 0, rk |-> q.kind]}) :
+                  {[num |-> q.num, kind |-> "ok", len |-> 0, rk |-> "write", off |-> 0]} \cup
+                  (IF WriteFaults THEN {[num |-> q.num, kind |-> "err", len |-> 0, rk |-> "write", off |-> 0]} ELSE {})
+             [] OTHER -> {[num |-> q.num, kind |-> "ok", len |-> 0, rk |-> q.kind, off |-> 0]}) :
           /\ resp' = Append(resp, r)
           /\ werr' = (werr \/ (q.kind = "write" /\ r.kind = "err"))
   /\ srvq' = Tail(srvq)
@@ -121,12 +124,20 @@ Serve ==
 \* the busy-wait of _prefetch_thread: issue only while fewer than maxc extents are registered
 PfMayIssue(t) == t.maxc = 0 \/ Cardinality(Dom(extents)) < t.maxc
 PfWants(i) == pfs[i].todo # <<>> /\ PfMayIssue(pfs[i])
-PfSendEnabled(i) == \/ (pfs[i].pc = "send" /\ PfWants(i) /\ ~flow.lock /\ ReqRoom)
+PfSendEnabled(i) == \/ (pfs[i].pc = "send" /\ ~IdBeforeLock /\ PfWants(i) /\ ~flow.lock /\ ReqRoom)
+                    \/ (pfs[i].pc = "built" /\ ~flow.lock /\ ReqRoom)
                     \/ (pfs[i].pc = "locked" /\ ReqRoom)
-PfSend(i) ==    \* num = self.sftp._async_request(self, CMD_READ, ...)
+\* the mutation IdBeforeLock: msg.add_int(self.request_number) happens before the lock is taken
+PfBuild(i) ==
+  /\ IdBeforeLock /\ pfs[i].pc = "send" /\ PfWants(i)
+  /\ pfs' = [pfs EXCEPT ![i] = [@ EXCEPT !.pc = "built", !.num = nextreq]]
+  /\ UNCHANGED <<proto, realpos, pfst, reqs, werr, raised, app, nops, closed, obs, bufv>>
+PfSend(i) ==    \* num = self.sftp._async_request(self, CMD_READ, ...): the packet carries the id that was written into it,
+                \* the request is registered (and later found in _prefetch_extents) under the number allocated under the lock
   /\ PfSendEnabled(i)
   /\ expecting' = Put(expecting, nextreq, "file")
-  /\ srvq' = Append(srvq, [num |-> nextreq, kind |-> "read", off |-> Head(pfs[i].todo)[1], len |-> Head(pfs[i].todo)[2]])
+  /\ srvq' = Append(srvq, [num |-> IF pfs[i].pc = "built" THEN pfs[i].num ELSE nextreq, kind |-> "read",
+                            off |-> Head(pfs[i].todo)[1], len |-> Head(pfs[i].todo)[2]])
   /\ nextreq' = nextreq + 1
   /\ flow' = [TakeReqCredit(flow) EXCEPT !.lock = FALSE]
   /\ pfs' = [pfs EXCEPT ![i] = [@ EXCEPT !.pc = "reg", !.num = nextreq, !.cur = Head(pfs[i].todo),
@@ -144,7 +155,7 @@ PfRegister(i) ==  \* with self._prefetch_lock: self._prefetch_extents[num] = (of
   /\ pfs' = IF pfs[i].todo = <<>> THEN RemoveAt(pfs, i)            \* thread ends
             ELSE [pfs EXCEPT ![i] = [@ EXCEPT !.pc = "send"]]
   /\ UNCHANGED <<proto, realpos, prefetching, pfdone, pdata, savedExc, reqs, werr, raised, app, nops, closed, obs, bufv>>
-PfCanMove == \E i \in 1..Len(pfs) : PfSendEnabled(i) \/ pfs[i].pc = "reg"
+PfCanMove == \E i \in 1..Len(pfs) : PfSendEnabled(i) \/ pfs[i].pc = "reg" \/ (IdBeforeLock /\ pfs[i].pc = "send" /\ PfWants(i))
 
 (* ------------------------------ application thread ------------------------------ *)
 \* SFTPFile._data_in_prefetch_buffers(o): the key of the buffer holding offset o, or -1
@@ -175,9 +186,14 @@ Plan(cs) == IF cs = <<>> THEN <<>>
 
 \* SFTPFile._async_response(t, msg, num); data (and, repaired, status) replies wait for the extent to be registered
 AsyncResponseEnabled(r) ==
-  r.rk # "read" \/ (r.kind # "data" /\ ~FixExtent) \/ r.num \in Dom(extents)
+  r.rk # "read" \/ (r.kind # "data" /\ (~FixExtent \/ StatusNoWait)) \/ r.num \in Dom(extents)
 AsyncResponse(r) ==
-  IF r.kind # "data"
+  IF r.kind # "data" /\ StatusNoWait /\ r.rk = "read" /\ r.num \notin Dom(extents)
+    THEN \* the mutation: the id is not (yet) in _prefetch_extents, so the status is taken for a write's: any failure,
+         \* EOF included, becomes the file's pending exception, and the extent registered afterwards is never removed
+         /\ savedExc' = IF r.kind = "ok" THEN savedExc ELSE IF r.kind = "eof" THEN "eof" ELSE "err"
+         /\ UNCHANGED <<extents, pfdone, pdata>>
+  ELSE IF r.kind # "data"
     THEN /\ savedExc' = IF r.kind = "ok" THEN savedExc
                         ELSE IF r.kind = "eof" THEN (IF FixEofSave THEN savedExc ELSE "eof") ELSE "err"
          /\ extents' = IF FixExtent /\ r.rk = "read" THEN Remove(extents, r.num) ELSE extents
@@ -228,10 +244,21 @@ RdLoop ==     \* while len(self._rbuffer) < size: new_data = self._read(read_siz
             /\ UNCHANGED <<proto, prefetching>>
        ELSE IF prefetching
          THEN /\ app' = [app EXCEPT !.pc = "pf_loop"] /\ UNCHANGED <<proto, prefetching, obs, bufv>>
-         ELSE /\ AsyncReq("sync", "read", realpos, Ask(app))
-              /\ app' = [app EXCEPT !.pc = "wait_read", !.num = nextreq]
-              /\ UNCHANGED <<resp, prefetching, obs, bufv>>
+         ELSE IF IdBeforeLock
+           THEN /\ app' = [app EXCEPT !.pc = "rd_built", !.num = nextreq]      \* id written into the packet, lock not yet taken
+                /\ UNCHANGED <<proto, prefetching, obs, bufv>>
+           ELSE /\ AsyncReq("sync", "read", realpos, Ask(app))
+                /\ app' = [app EXCEPT !.pc = "wait_read", !.num = nextreq]
+                /\ UNCHANGED <<resp, prefetching, obs, bufv>>
   /\ UNCHANGED <<realpos, pfdone, extents, pdata, savedExc, reqs, werr, raised, nops, closed, pfs>>
+RdSendBuilt ==   \* (mutation) register under the number allocated now, send the packet built earlier
+  /\ app.pc = "rd_built" /\ ~flow.lock /\ ReqRoom
+  /\ flow' = TakeReqCredit(flow)
+  /\ expecting' = Put(expecting, nextreq, "sync")
+  /\ srvq' = Append(srvq, [num |-> app.num, kind |-> "read", off |-> realpos, len |-> Ask(app)])
+  /\ nextreq' = nextreq + 1
+  /\ app' = [app EXCEPT !.pc = "wait_read", !.num = nextreq]
+  /\ UNCHANGED <<resp, realpos, pfst, reqs, werr, raised, nops, closed, pfs, obs, bufv>>
 
 \* _read_prefetch loop (sftp_file.py:149-177)
 PfLoopHit ==      \* data for realpos is buffered: consume (up to the asked size) and return it
@@ -248,9 +275,12 @@ PfLoopHit ==      \* data for realpos is buffered: consume (up to the asked size
 PfLoopGiveUp ==   \* nothing buffered and prefetch finished: self._prefetching = False; fall back to a plain read
   /\ app.pc = "pf_loop" /\ BufFor(realpos) = -1 /\ pfdone
   /\ prefetching' = FALSE
-  /\ AsyncReq("sync", "read", realpos, Ask(app))
-  /\ app' = [app EXCEPT !.pc = "wait_read", !.num = nextreq]
-  /\ UNCHANGED <<resp, realpos, pfdone, extents, pdata, savedExc, reqs, werr, raised, nops, closed, pfs, obs, bufv>>
+  /\ IF IdBeforeLock
+       THEN app' = [app EXCEPT !.pc = "rd_built", !.num = nextreq] /\ UNCHANGED proto
+       ELSE /\ AsyncReq("sync", "read", realpos, Ask(app))
+            /\ app' = [app EXCEPT !.pc = "wait_read", !.num = nextreq]
+            /\ UNCHANGED resp
+  /\ UNCHANGED <<realpos, pfdone, extents, pdata, savedExc, reqs, werr, raised, nops, closed, pfs, obs, bufv>>
 PfLoopWait ==     \* self.sftp._read_response(); self._check_exception()
   /\ app.pc = "pf_loop" /\ BufFor(realpos) = -1 /\ ~pfdone
   /\ LET nxt == [app EXCEPT !.pc = "pf_check"] IN
@@ -338,12 +368,17 @@ StartOp(op) ==
             /\ app' = IF Len(reqs) + 1 > PipeLimit /\ resp # <<>>      \* ... and self.sftp.sock.recv_ready()
                         THEN [AppIdle EXCEPT !.pc = "drain"] ELSE app
             /\ obs' = NoObs /\ UNCHANGED <<resp, pfs, prefetching, pfdone, realpos, closed, bufv>>
+       [] op = "writeB" ->            \* a pipelined write on ANOTHER file object of the same session (owner "fileB")
+            /\ AsyncReq("fileB", "writeB", 0, 1) /\ UNCHANGED app
+            /\ obs' = NoObs /\ UNCHANGED <<resp, pfs, prefetching, pfdone, realpos, reqs, closed, bufv>>
        [] op = "stat" ->              \* any synchronous request (stat / listdir / chmod / ...)
             /\ AsyncReq("sync", "stat", 0, 0) /\ app' = [AppIdle EXCEPT !.pc = "wait_sync", !.num = nextreq]
             /\ obs' = NoObs /\ UNCHANGED <<resp, pfs, prefetching, pfdone, realpos, reqs, closed, bufv>>
        [] op = "close" ->             \* SFTPFile._close
             /\ IF FixOwner
-                 THEN app' = [AppIdle EXCEPT !.pc = "finish"] /\ UNCHANGED proto
+                 THEN /\ app' = [AppIdle EXCEPT !.pc = "finish",
+                                                  !.num = Cardinality({n \in Dom(expecting) : expecting[n] = "file"})]
+                      /\ UNCHANGED proto
                ELSE IF FixClose /\ reqs # <<>>
                  THEN app' = [AppIdle EXCEPT !.pc = "drain_close"] /\ UNCHANGED proto
                  ELSE /\ AsyncReq("sync", "close", 0, 0) /\ UNCHANGED resp    \* _finish_responses(self): nothing registered
@@ -387,8 +422,9 @@ DrainEnd ==
 \* then a final _check_exception(), then CMD_CLOSE
 Finish ==
   /\ app.pc = "finish"
-  /\ IF \E n \in Dom(expecting) : expecting[n] = "file"
-       THEN /\ LET nxt == [app EXCEPT !.pc = "finish_check"] IN ReadRespStep(None, LAMBDA r : nxt, nxt)
+  /\ IF (IF FinishCountsOnce THEN app.num > 0 ELSE \E n \in Dom(expecting) : expecting[n] = "file")
+       THEN /\ LET nxt == [app EXCEPT !.pc = "finish_check", !.num = IF app.num > 0 THEN app.num - 1 ELSE 0]
+               IN ReadRespStep(None, LAMBDA r : nxt, nxt)
             /\ UNCHANGED <<nextreq, srvq, raised, reqs>>
        ELSE IF savedExc # "none"
          THEN /\ raised' = (raised \/ savedExc = "err") /\ savedExc' = "none" /\ app' = AppIdle
@@ -407,7 +443,7 @@ FinishCheck ==
 \* the reader has a packet in its hand and waits for SFTPClient._lock (only a sender stuck in send() holds it that long)
 AppWaitsToRead == \/ app.pc \in {"wait_sync", "wait_read", "wait_close"}
                   \/ (app.pc \in {"drain", "drain_close"} /\ reqs # <<>> /\ ~(FixOwner /\ Head(reqs) \notin Dom(expecting)))
-                  \/ (app.pc = "finish" /\ \E n \in Dom(expecting) : expecting[n] = "file")
+                  \/ (app.pc = "finish" /\ (IF FinishCountsOnce THEN app.num > 0 ELSE \E n \in Dom(expecting) : expecting[n] = "file"))
                   \/ (app.pc = "pf_loop" /\ BufFor(realpos) = -1 /\ ~pfdone)
 AppTakeBlocked ==
   /\ AppWaitsToRead /\ flow.lock /\ flow.inhand.num = None /\ resp # <<>>
@@ -416,9 +452,9 @@ AppTakeBlocked ==
   /\ UNCHANGED <<nextreq, expecting, srvq, realpos, pfst, reqs, werr, raised, app, nops, closed, pfs, obs, bufv>>
 
 Next == \/ \E op \in Ops : StartOp(op)
-        \/ RdLoop \/ PfLoopHit \/ PfLoopGiveUp \/ PfLoopWait \/ PfCheck \/ WaitRead \/ RdGot \/ RvNext
+        \/ RdLoop \/ RdSendBuilt \/ PfLoopHit \/ PfLoopGiveUp \/ PfLoopWait \/ PfCheck \/ WaitRead \/ RdGot \/ RvNext
         \/ WaitSync \/ Closed \/ Drain \/ DrainSkip \/ Drained1 \/ DrainEnd \/ Finish \/ FinishCheck
-        \/ Serve \/ AppTakeBlocked \/ \E i \in 1..Len(pfs) : PfSend(i) \/ PfRegister(i) \/ PfBlockHoldingLock(i)
+        \/ Serve \/ AppTakeBlocked \/ \E i \in 1..Len(pfs) : PfSend(i) \/ PfRegister(i) \/ PfBlockHoldingLock(i) \/ PfBuild(i)
 Spec == Init /\ [][Next]_vars
 
 (* ------------------------------ properties ------------------------------ *)
@@ -435,6 +471,11 @@ ServerCanMove == srvq # <<>> /\ RespRoom
 NoHang == AppWaiting => (AppCanRead \/ AppCanTake \/ ServerCanMove \/ PfCanMove)
 \* C28 "reads (with any seeks) ... at the requested offsets": between calls the file is where the calls put it
 PosAgrees == app.pc = "idle" => realpos - rb = apos
+\* C28: data that is on its way back belongs to the offset its receiver will file it under
+RightBytes == \A i \in 1..Len(resp) :
+                 resp[i].kind = "data" =>
+                   /\ (app.pc = "wait_read" /\ resp[i].num = app.num => resp[i].off = realpos)
+                   /\ (resp[i].num \in Dom(extents) => extents[resp[i].num][1] = resp[i].off)
 \* C29: a rejected pipelined write is reported no later than close()
 WriteErrorSurfaces == closed => (werr => raised)
 =============================================================================
